@@ -252,12 +252,21 @@ def small_functions(tier, seed):
 
 def sweep(tier, shard, nshards, seed):
     funcs = small_functions(tier, seed)
-    done = nontrivial = queries = 0
+    done = nontrivial = queries = declined = 0
     for idx, (n, cols) in enumerate(funcs):
         if idx % nshards != shard:
             continue
         try:
-            queries += check_function(n, cols, make_reps(n, cols), sets_budget=8)
+            if n == 0:
+                # a library may decline to build a function without inputs at all; what it does build it must answer for
+                try:
+                    reps = make_reps(n, cols)
+                except Exception:  # noqa
+                    declined += 1
+                    continue
+            else:
+                reps = make_reps(n, cols)
+            queries += check_function(n, cols, reps, sets_budget=8)
         except Violation as v:
             v.case = {'n': n, 'cols': cols}
             raise
@@ -268,12 +277,19 @@ def sweep(tier, shard, nshards, seed):
         if not all(d_constant(c, n) for c in cols):
             nontrivial += 1
     return {'evaluations': done, 'distinct_nontrivial': nontrivial, 'exhaustive': tier == 'thorough',
-            'counters': {'queries_compared': queries},
+            'counters': {'queries_compared': queries, 'zero_input_functions_declined_at_construction': declined},
             'samples': [{'n': n, 'cols': cols} for n, cols in funcs[shard::nshards][:1]]}
 
 
 def replay_sweep(case):
-    check_function(case['n'], case['cols'], make_reps(case['n'], case['cols']))
+    if case['n'] == 0:
+        try:
+            reps = make_reps(0, case['cols'])
+        except Exception:  # noqa  (declined at construction: nothing to answer for)
+            return
+    else:
+        reps = make_reps(case['n'], case['cols'])
+    check_function(case['n'], case['cols'], reps)
 
 
 # ---------------------------------------------------------------------------
